@@ -30,7 +30,7 @@ class Prop:
     # property (None = the property is not about the timed sessions), and whether their times do
     fuzz_kinds = None
     fuzz_times = True
-    fuzz_n = (25, 400)
+    fuzz_n = (100, 1500)
 
     def corpus(self):
         return []
